@@ -278,6 +278,16 @@ class SeqGen:
             d += r.below(self.p.get("adv_jitter_us", 100000))
         if self.p.get("ms_only", False):
             d = d // 1000 * 1000
+        elif r.chance(*self.p.get("edge_chance", (1, 5))):
+            # land around a pending deadline: just before it, on it, or in the sub-millisecond
+            # window after it in which the millisecond-granular timer has not fired yet
+            dls = sorted({x[1] for sub in self.subs.values() for x in sub.out if x[1] > self.clock})
+            if dls:
+                dl = r.choice(dls[:3])
+                room = (dl + 999) // 1000 * 1000 - dl
+                off = r.choice([-1, 0, 1, 1 + r.below(max(room, 1)), room, room + 1])
+                if dl + off > self.clock:
+                    d = dl + off - self.clock
         if self.streams:
             # an unread stream that keeps receiving redeliveries for minutes only fills the HTTP/2
             # window (a transport effect outside the model): keep the steps short and read
@@ -342,8 +352,11 @@ class SeqGen:
             mods, secs = mods + ["zz"], secs + [10]
         else:
             broke = False
-        if broke and s:
-            self.emit("stats " + hx(s.name))       # a rejected control message must change nothing
+        if s and (broke or (acks and mods)):
+            # a rejected control message must change nothing (baseline). For an accepted one with
+            # both parts the flush matters: if the first request's expiry re-check queued messages,
+            # the stream's pull loop would race with the second request (tokio `merge` order)
+            self.emit("stats " + hx(s.name))
         self.emit("ssend %d %s %s %s %s %d %d" % (k, subf, jl(hx(a) for a in acks), jl(hx(a) for a in mods), jl(str(x) for x in secs), mm, mb))
         if broke:
             if s:
@@ -473,10 +486,11 @@ DEADLINES = {
     "projects": ["p1"], "topics": ["t1"], "subs": ["s1", "s2"],
     "ackdl": [-5, 0, 1, 9, 10, 11, 17, 600, 601, 3600],
     "adv": [1000, 999000, 1000000, 9000000, 9899000, 9999000, 10000000, 10001000, 10099000, 10100000, 10199000, 10200000, 16999000, 17000000],
-    "adv_jitter": (1, 2), "adv_jitter_us": 200000,
+    "adv_jitter": (1, 2), "adv_jitter_us": 200000, "edge_chance": (1, 3),
     "mod_secs": [0, 1, 2, 9, 10, 11, 30, 599, 600, 601, 2 ** 31 - 1],
     "block_chance": (1, 4),
-    "weights": {"csub": 2, "pub": 10, "pull": 16, "ack": 4, "mod": 10, "adv": 22, "stats": 3},
+    "weights": {"csub": 2, "pub": 10, "pull": 16, "ack": 4, "mod": 10, "adv": 22, "stats": 3, "gsub": 2, "lists": 1,
+                "sopen": 1, "sread": 1},
 }
 
 NAMESPACE = {
